@@ -447,8 +447,8 @@ else:
 # ----------------------------------------------------------------------------------------------
 # H20c  ownership of zeroconf instances over sequences of manager operations
 # ----------------------------------------------------------------------------------------------
-OP_GET, OP_CLOSE, OP_SET_ASYNC, OP_SET_SYNC, OP_RESOLVE_OK, OP_RESOLVE_ERR, OP_RESOLVE_NOSOCK = range(7)
-NOPS = 7
+OP_GET, OP_CLOSE, OP_SET_ASYNC, OP_SET_SYNC, OP_RESOLVE_OK, OP_RESOLVE_ERR, OP_RESOLVE_NOSOCK, OP_RESOLVE_CANCEL = range(8)
+NOPS = 8
 
 
 class _Boom(Exception):
@@ -557,6 +557,30 @@ def h20c_ownership(ops: List[int]) -> bool:
                 except RuntimeError:
                     return track.fail("set_instance refused the application's (same) zeroconf instance")
                 holder = "app"
+            elif op == OP_RESOLVE_CANCEL:
+                # the caller is cancelled while the mDNS request is in flight (a cancelled connect,
+                # ReconnectLogic.stop()): an instance created for this call is no longer needed either
+                had = holder is not None
+                state["mode"] = "ok"
+                t = loop.create_task(HR._async_zeroconf_get_service_info(mgr, "_esphomelib._tcp.local.", "d._esphomelib._tcp.local.", "d.local.", 3.0))
+                loop.run_ready()
+                if t.done():
+                    return track.fail("resolver call finished before the mDNS answer")
+                t.cancel()
+                if not loop.run_until_done(t):
+                    return track.fail("cancelled resolver call never ended")
+                if not t.cancelled():
+                    t.exception()
+                new = zw.library_created()[before:]
+                if not had:
+                    interesting = True
+                    for a in new:
+                        if a.close_calls < 1:
+                            return track.fail("a cancelled resolver call left the AsyncZeroconf it caused to be created open")
+                    if mgr.has_instance:
+                        return track.fail("the manager still holds the instance that the cancelled resolver call created")
+                elif holder != "app" and holder.close_calls:
+                    return track.fail("a cancelled resolver call closed an instance it did not cause to be created (still in use)")
             else:
                 had = holder is not None
                 if op == OP_RESOLVE_NOSOCK and had:
@@ -613,7 +637,7 @@ def h20c_ownership(ops: List[int]) -> bool:
 
 
 NOPSEQ = shard_int("NOPSEQ", 4)
-OPTAB = shard_ints("OPTAB", "0,1,2,3,4,5,6")
+OPTAB = shard_ints("OPTAB", "0,1,2,3,4,5,6,7")
 
 
 def shards(tier: str) -> list:
@@ -665,12 +689,12 @@ BOUNDS = {
     "quick": {
         "H20a": "every str of length <= 8; prefix of length <= 3 + 13 endings",
         "H20b": "1..2 hosts x 8 forms (IPv4, IPv6 compressed, IPv6 full upper-case, IPv6%numeric scope, bare, name.local, name.local., FQDN) x mDNS {v4, v6, both, none, request error, cannot create sockets} x OS {v4, v6, unknown family, mixed, empty, OSError}; port symbolic in 1..65535; manager None / supplied AsyncZeroconf (2 hosts), empty manager / supplied Zeroconf (1 host)",
-        "H20c": "all sequences of 4 operations out of {get, close, set_instance(AsyncZeroconf), set_instance(Zeroconf), resolve ok, resolve error, resolve with socket-creation error} from an empty manager, of 3 operations from managers constructed with a supplied AsyncZeroconf / Zeroconf",
+        "H20c": "all sequences of 4 operations out of {get, close, set_instance(AsyncZeroconf), set_instance(Zeroconf), resolve ok, resolve error, resolve with socket-creation error, resolve cancelled while the mDNS request is in flight} from an empty manager, of 3 operations from managers constructed with a supplied AsyncZeroconf / Zeroconf",
     },
     "thorough": {
         "H20a": "every str of length <= 11; prefix <= 6 + 13 endings",
         "H20b": "as quick with 2 hosts for all four manager modes, plus 1..3 hosts over reduced alphabets (5 forms, 4 mDNS outcomes, 4 OS outcomes)",
-        "H20c": "all sequences of 5 operations (7 operations, 3 initial managers); all sequences of 6 over {get, close, set_instance(AsyncZeroconf), resolve ok, resolve error} from an empty manager",
+        "H20c": "all sequences of 5 operations (8 operations, 3 initial managers); all sequences of 6 over {get, close, set_instance(AsyncZeroconf), resolve ok, resolve error} from an empty manager",
     },
 }
 OUTSIDE = [
